@@ -205,8 +205,10 @@ Definition hcase_model_ok (c : hcase) : bool :=
 Definition hcase_prop_ok (c : hcase) : bool := hcase_model_ok c.
 
 (* ---------- L: hp.isLocalhost on the host pool against the small reference *)
-Record lcase := { lc_aliases : list str; lc_host : str; lc_out : bool }.
-Definition lcase_model_ok (c : lcase) : bool := Bool.eqb (localhost_ref (lc_aliases c) (lc_host c)) (lc_out c).
+Record lcase := { lc_aliases : list str; lc_idna : list (str * str); lc_host : str; lc_out : bool }.
+Definition lcase_model_ok (c : lcase) : bool :=
+  Bool.eqb (localhost_ref (fun h => match assoc h (lc_idna c) with Some a => a | None => h end)
+                          (lc_aliases c) (lc_host c)) (lc_out c).
 Definition lcase_prop_ok (c : lcase) : bool := lcase_model_ok c.
 
 (* indices (from 0) of the cases on which f fails *)
